@@ -124,8 +124,25 @@ pub fn check_moov(o: &mut Outcome, d: &[u8], tree: &[Node], m: &Movie, ctx: &str
         if !(&h.handler == b"vide" || &h.handler == b"soun") {
             o.fail("hdlr", format!("hdlr.type.{}", ctx), format!("handler type {}", fourcc(&h.handler)));
         }
+        // the handler type has to be the one the sample entry's coding calls for (a strict reader picks the decoder by
+        // the entry and the media header box by the handler)
+        let entry_is_video = match &t.entry.typ {
+            b"avc1" | b"avc3" | b"hev1" | b"hvc1" | b"av01" | b"vp09" => Some(true),
+            b"mp4a" | b"Opus" => Some(false),
+            _ => None,
+        };
+        if let Some(v) = entry_is_video {
+            if v != (&h.handler == b"vide") {
+                o.fail("hdlr", format!("hdlr.type_vs_entry.{}", ctx), format!("handler type {} on a track whose sample entry is {}", fourcc(&h.handler), fourcc(&t.entry.typ)));
+            }
+        }
         // ---- minf headers
         let minf = tr.path(&[b"mdia", b"minf"]).unwrap();
+        let want_hdr: &[u8; 4] = if &h.handler == b"vide" { b"vmhd" } else { b"smhd" };
+        let other_hdr: &[u8; 4] = if &h.handler == b"vide" { b"smhd" } else { b"vmhd" };
+        if minf.kid(want_hdr).is_none() || minf.kid(other_hdr).is_some() {
+            o.fail("hdlr", format!("hdlr.media_header.{}.{}", kind, ctx), format!("{} track (handler {}): {} present = {}, {} present = {}", kind, fourcc(&h.handler), fourcc(want_hdr), minf.kid(want_hdr).is_some(), fourcc(other_hdr), minf.kid(other_hdr).is_some()));
+        }
         if let Some(v) = minf.kid(b"vmhd") {
             let p = v.payload(d);
             if p.len() != 12 || p[0] != 0 {
